@@ -203,6 +203,21 @@ def exec_op(op, objs):
             warnings.simplefilter("ignore")
             bad(w1.make_image(a, cfg), w1.make_image(b, cfg))
         return None
+    if k == "W1F":
+        # the unified access darsia.wasserstein_distance(m1, m2, method, options=...): no object is handed in, so the
+        # result may depend on nothing but this call's arguments (nested solver options included)
+        cfg = dict(objs[op["obj"] + "#cfg"])
+        cfg["pair"] = op["pair"]
+        cfg["ls_options"] = {**cfg.get("ls_options", {}), **op.get("ls", {})}
+        cfg.pop("weight", None)
+        a, b = w1.mass_pair(cfg)
+        import warnings
+        with warnings.catch_warnings():
+            warnings.simplefilter("ignore")
+            dist, info = darsia.wasserstein_distance(w1.make_image(a, cfg), w1.make_image(b, cfg),
+                                                     method="newton" if cfg["method"] == "newton" else "bregman",
+                                                     options=w1.make_options(cfg))
+        return (float(dist), bool(info["converged"]), np.array(info["flux"]), np.array(info["pressure"]))
     if k == "W1":
         cfg = dict(objs[op["obj"] + "#cfg"])
         cfg["pair"] = op["pair"]
@@ -638,6 +653,9 @@ class C16Engine(Engine):
                 pair["kind"] = "blocks"
             if r.random() < 0.3:
                 pair["scale"] = r.choice([0.125, 8.0, 64.0])
+            if r.random() < 0.3:
+                t = r.choice([1e-3, 1e-7, 1e-11])
+                return {"op": "W1F", "obj": f"{cname}.w0", "pair": pair, "ls": {"atol": t, "rtol": t}}
             return {"op": "W1", "obj": f"{cname}.w0", "pair": pair}
         raise HarnessError(k)
 
